@@ -318,24 +318,24 @@ structure Resolves (algo : Nat) (sets : List (List Event)) (m : List Event) (aut
       -- finally the unconflicted state is re-applied
       result = applyAll (iterAuth m rejected s2 othOrder) unconf))
 
-/-! ## Version 1 (R1, R2) -/
+/-! ## Version 1 (R1, R2)
 
-/-- the slot of the v1 auth state an event occupies: create / power_levels / join_rules only with an empty
-    state key, member / third_party_invite per state key, nothing else -/
-def v1Slot (e : Event) : Option Key :=
-  if e.type == b!"m.room.create" || e.type == b!"m.room.power_levels" || e.type == b!"m.room.join_rules" then
-    (if e.stateKeyEquals [] then some (e.type, []) else none)
-  else if e.type == b!"m.room.member" || e.type == b!"m.room.third_party_invite" then some (e.type, e.stateKey.getD [])
-  else none
+  The auth checks of version 1 run against "the resolver seen as an auth event provider"; the auth rules are an
+  opaque function of (event, provider), so the definition uses the model's record of registered auth events
+  (`V1State`: one slot each for create / power_levels / join_rules, one per state key for member and
+  third_party_invite) with its `addAuthEvent` / `removeAuthEvent` / `provider`, and describes WHAT is tried against
+  WHICH registered events, in WHICH order. -/
 
-/-- candidates of a block in the order they are tried: depth ascending, then SHA-1(event ID) descending -/
-def v1Key (sha : ID → Bytes) (e : Event) : V1Key := { depth := e.depth, sha1 := sha e.eventID }
+open V.StateRes (V1State v1Allowed)
 
-def IsV1Order (sha : ID → Bytes) (block out : List Event) : Prop :=
-  out.Perm block ∧ IsSortedBy v1Lt (v1Key sha) out
+/-- the candidates of a conflicted key -/
+def candidates (conflicted : List Event) (k : Key) : List Event := conflicted.filter (fun e => decide (keyOf e = some k))
 
-/-- the phases in which the conflicted keys are resolved (R1):
-    0 create, 1 power_levels, 2 join_rules, 3 third_party_invite, 4 member, 5 the rest -/
+/-- the conflicted keys, in the order they are first seen -/
+def conflictedKeys (conflicted : List Event) : List Key := (conflicted.filterMap keyOf).eraseDups
+
+/-- R1: the phases in which the conflicted keys are resolved:
+    0 create, 1 power_levels, 2 join_rules, 3 third_party_invite (per key), 4 member (per key), 5 the rest -/
 def v1Phase (k : Key) : Nat :=
   if k == (b!"m.room.create", []) then 0
   else if k == (b!"m.room.power_levels", []) then 1
@@ -343,5 +343,71 @@ def v1Phase (k : Key) : Nat :=
   else if k.1 == b!"m.room.third_party_invite" then 3
   else if k.1 == b!"m.room.member" then 4
   else 5
+
+/-- the blocks of a phase: the candidate lists of its keys -/
+def phaseBlocks (conflicted : List Event) (p : Nat) : List (List Event) :=
+  ((conflictedKeys conflicted).filter (fun k => v1Phase k == p)).map (candidates conflicted)
+
+/-- R1: candidates are tried by depth ascending, then SHA-1(event ID) descending (the SHA-1 is an abstract function) -/
+def v1Key (sha : ID → Bytes) (e : Event) : V1Key := { depth := e.depth, sha1 := sha e.eventID }
+
+def IsV1Order (sha : ID → Bytes) (block out : List Event) : Prop :=
+  out.Perm block ∧ IsSortedBy v1Lt (v1Key sha) out
+
+/-- the supplied auth events all belong to one room (otherwise every auth check fails) -/
+def SameRoom (auth : List Event) : Prop := ∀ a ∈ auth, ∀ b ∈ auth, a.roomID = b.roomID
+
+/-- An auth block: with the current winner `w` registered, the next candidate is checked against the registered
+    events; if it passes it is registered and becomes the winner, otherwise the run stops. -/
+inductive AuthBlockRun (valid : Bool) : V1State → Event → List Event → Event → V1State → Prop
+  | done {s : V1State} {w : Event} : AuthBlockRun valid s w [] w s
+  | stop {s : V1State} {w e : Event} {more : List Event} : v1Allowed s valid e = false → AuthBlockRun valid s w (e :: more) w s
+  | next {s s' : V1State} {w e w' : Event} {more : List Event} : v1Allowed s valid e = true →
+      AuthBlockRun valid (s.addAuthEvent e) e more w' s' → AuthBlockRun valid s w (e :: more) w' s'
+
+/-- One phase: the blocks are resolved one after the other; a block's winner is taken out of the registered events
+    again until the phase is over (its slot stays empty meanwhile). -/
+inductive PhaseRun (sha : ID → Bytes) (valid : Bool) : V1State → List (List Event) → V1State → List Event → Prop
+  | nil {s : V1State} : PhaseRun sha valid s [] s []
+  | skip {s s' : V1State} {blocks : List (List Event)} {ws : List Event} :
+      PhaseRun sha valid s blocks s' ws → PhaseRun sha valid s ([] :: blocks) s' ws
+  | block {s s1 s' : V1State} {block rest : List Event} {c0 w : Event} {blocks : List (List Event)} {ws : List Event} :
+      IsV1Order sha block (c0 :: rest) → AuthBlockRun valid (s.addAuthEvent c0) c0 rest w s1 →
+      PhaseRun sha valid (s1.removeAuthEvent w.type (w.stateKey.getD [])) blocks s' ws →
+      PhaseRun sha valid s (block :: blocks) s' (w :: ws)
+
+/-- after a phase its winners are registered -/
+def registerAll (s : V1State) (ws : List Event) : V1State := ws.foldl (fun st e => st.addAuthEvent e) s
+
+/-- A normal block: the last candidate (other than the first) that passes the auth check against the registered
+    events wins; if none does, the first candidate wins. -/
+def IsNormalWinner (valid : Bool) (s : V1State) (sorted : List Event) (w : Event) : Prop :=
+  ∃ c0 rest, sorted = c0 :: rest ∧
+    ((∃ pre post, rest = pre ++ w :: post ∧ v1Allowed s valid w = true ∧ ∀ e ∈ post, v1Allowed s valid e = false) ∨
+     ((∀ e ∈ rest, v1Allowed s valid e = false) ∧ w = c0))
+
+inductive NormalRun (sha : ID → Bytes) (valid : Bool) (s : V1State) : List (List Event) → List Event → Prop
+  | nil : NormalRun sha valid s [] []
+  | cons {block sorted : List Event} {w : Event} {blocks : List (List Event)} {ws : List Event} :
+      IsV1Order sha block sorted → IsNormalWinner valid s sorted w → NormalRun sha valid s blocks ws →
+      NormalRun sha valid s (block :: blocks) (w :: ws)
+
+/-- `V1Resolves sha conflicted auth result`: version 1 picks one event per conflicted key, phase by phase (R1). -/
+structure V1Resolves (sha : ID → Bytes) (conflicted auth : List Event) (result : List Event) : Prop where
+  run : ∃ (valid : Bool) (s1 s2 s3 s4 s5 : V1State) (r1 r2 r3 r4 r5 r6 : List Event),
+    (valid = true ↔ SameRoom auth) ∧
+    PhaseRun sha valid (registerAll {} auth) (phaseBlocks conflicted 0) s1 r1 ∧
+    PhaseRun sha valid (registerAll s1 r1) (phaseBlocks conflicted 1) s2 r2 ∧
+    PhaseRun sha valid (registerAll s2 r2) (phaseBlocks conflicted 2) s3 r3 ∧
+    PhaseRun sha valid (registerAll s3 r3) (phaseBlocks conflicted 3) s4 r4 ∧
+    PhaseRun sha valid (registerAll s4 r4) (phaseBlocks conflicted 4) s5 r5 ∧
+    NormalRun sha valid (registerAll s5 r5) (phaseBlocks conflicted 5) r6 ∧
+    result = r1 ++ r2 ++ r3 ++ r4 ++ r5 ++ r6
+
+/-- the version-1 entry point: resolve the conflicted keys (R2 split), keep the unconflicted events -/
+def V1Result (sha : ID → Bytes) (sets : List (List Event)) (auth : List Event) (ids : List ID) : Prop :=
+  ∃ conflicted unconflicted resolved : List Event,
+    (∀ x, x ∈ conflicted ↔ ConflictedV1 sets x) ∧ (∀ x, x ∈ unconflicted ↔ UnconflictedV1 sets x) ∧
+    V1Resolves sha conflicted auth resolved ∧ ids = (resolved ++ unconflicted).map (·.eventID)
 
 end V.StateResSpec
